@@ -43,6 +43,7 @@ def plan(tier, seed):
                 scs.append(dict(kind='gen', cell=ci, pat=pn, subpose=4 if (ci + v) % 2 else 1, place=P(0.97, 0.03, 0.97), variant=v, ncopies=2, atol=0.3, build_atol=0.48, noise=1))
     scs += [dict(kind='real', i=i) for i in (list(range(3)) + [5] if q else range(len(REAL)))]
     scs += [dict(kind='large', order=o, variant=v) for o in (0, 1) for v in ('self', 'aba')]
+    scs += [dict(sc, kind='rhistory') for sc in replace_history_scenarios()] + [dict(kind='aba-replica', cell=ci, pat=pn) for ci in (0, 2, 4) for pn in ('CNO', 'CHHB')]
     return dict(scenarios=scs, exhaustive=True, chunk=10,
                 menus=dict(cells=[c[0] for c in G.CELLS], patterns=PATS, variants=VARIANTS, copies=[1, 2], real=[r[0] for r in REAL], draws='every answer of both steps within the bound'),
                 bounds=dict(history_depth=2, draw_deviation_bound=draw_bound(tier)),
@@ -292,9 +293,40 @@ def run_large(sc, ctx, out):
     out['outcomes']['large %s' % sc['variant']] = 1; out['nontrivial'] = 1
 
 
+def run_aba_replica(sc, ctx, out):
+    """A->B in the unit cell, replicate the result 2x1x1, B->A in the supercell: the supercell of the original comes back (mod lattice)"""
+    sc2 = dict(cell=sc['cell'], pat=sc['pat'], subpose=4, place=P(0.97, 0.03, 0.97), pair=0, ncopies=1, atol=0.05, noise=0)
+    c = build_case(sc2, ctx); s = c['s']; pel, pp = c['pel'], c['pp']; cell = c['cell']
+    A = pattern_atoms(pel, pp); B = pattern_atoms(list(pel[:-1]) + ['S'], pp)
+    ex = explorer(ctx)
+    V = lambda clause, sig, msg: out['violations'].append(viol(clause, sig, '%s [%s, %s]' % (msg, sc['pat'], G.CELLS[sc['cell']][0]), sc))
+    (r1, err), _ = ex.run(lambda: call(replace_pattern_in_structure, s, A, B, return_num_matches=True), ())
+    if err:
+        V('no-result', 'exc:' + exc_sig(err), 'A->B raised %r' % (err[0],)); return
+    sup = r1[0].replicate((2, 1, 1))
+    (r2, err), _ = ex.run(lambda: call(replace_pattern_in_structure, sup, B, A, return_num_matches=True), ())
+    out['evals'] += 2; out['compared'] += 1
+    if err:
+        V('no-result', 'exc:' + exc_sig(err), 'B->A in the replicated result raised %r' % (err[0],)); return
+    want = s.replicate((2, 1, 1))
+    if r2[1] != 2 * r1[1]:
+        V('reversible', 'replica-counts', 'A->B replaced %r matches in the unit cell, B->A %r in its 2x1x1 replica' % (r1[1], r2[1]))
+    d = match_multiset([(str(e), tuple(p)) for e, p in zip(want.elements, np.asarray(want.positions))], [(str(e), tuple(p)) for e, p in zip(r2[0].elements, np.asarray(r2[0].positions))], np.asarray(want.cell, float), 1e-6)
+    if d:
+        V('reversible', 'replica-multiset', 'A->B, replicate 2x1x1, B->A does not give the 2x1x1 replica of the original: %s' % d)
+    (f, err), _ = ex.run(lambda: call(find_pattern_in_structure, r2[0], A), ())
+    if not err and len(f) != 2 * r1[1]:
+        V('reversible', 'replica-search', 'after the round trip through the replica a search for A finds %d occurrences, expected %d' % (len(f), 2 * r1[1]))
+    out['outcomes']['aba through a replica'] = 1; out['nontrivial'] = 1
+
+
 def run(sc, ctx):
     out = dict(evals=0, compared=0, violations=[], outcomes={}, hashes={h64(sc)}, nontrivial=0)
-    if sc['kind'] == 'large':
+    if sc['kind'] == 'rhistory':
+        judge_replace_history(run_replace_history(sc, ctx), sc, out, 'reversible')
+    elif sc['kind'] == 'aba-replica':
+        run_aba_replica(sc, ctx, out)
+    elif sc['kind'] == 'large':
         run_large(sc, ctx, out)
     elif sc['kind'] == 'gen':
         run_gen(sc, ctx, out)
